@@ -11,6 +11,11 @@ def fd(i=3, **k): return F('d', i, D, **k)
 
 S = []
 
+# a NECESSARY condition of C10 that also holds for memoized / left-recursive grammars: the reported offset is one at which some
+# match attempt failed during the parse (reference side: every failed attempt, lookaheads included)
+ERR_REAL = ('        if !real.ok && !real.sentinel && real.err < 8 && (oracle.failmask >> real.err) & 1 == 0 '
+            '{ return Err("C10: the reported position is not an offset at which any match attempt failed during that parse"); }')
+
 # ---------------------------------------------------------------------------------------------- expressions
 S.append(Schema('seq_choice', [Rule('R', Seq(Opt(fa()), Grp(Alt(fa(), fb()))), skip=False, export=True)], 'R', 'AB', n=3,
     props=('C01', 'C02', 'C03', 'C10', 'C14'),
@@ -130,19 +135,19 @@ S.append(Schema('check2_plain', memo_rules(False, [(0, 'chk_m', 'first'), (1, 'c
 
 S.append(Schema('memo_check', memo_rules(True, [(0, 'chk_m', 'first')]), 'R', 'ABCD', n=2, nchk=1,
     props=('C05', 'C06', 'C14'), support=CHK_M, extract=MEMO_EXTRACT, cmp_err=False,
-    post='        if max_count(0) > 1 { return Err("C06: the body of a @memoize rule was evaluated more than once at one position"); }\n        if (0..NPOS).any(|p| unsafe { G.chk_calls[0][p] } > 1) { return Err("C06: a @check function reachable only through a @memoize rule ran more than once at one position"); }',
+    post='        if max_count(0) > 1 { return Err("C06: the body of a @memoize rule was evaluated more than once at one position"); }\n        if (0..NPOS).any(|p| unsafe { G.chk_calls[0][p] } > 1) { return Err("C06: a @check function reachable only through a @memoize rule ran more than once at one position"); }' + '\n' + ERR_REAL,
     note='m:M c:C | m:M d:D | b:B with @memoize @check M: same acceptance and tree as without @memoize; body at most once per position'))
 
 S.append(Schema('memo_plain', memo_rules(True, []), 'R', 'ABCD', n=3,
     props=('C05', 'C06'), support=CHK_M, extract=MEMO_EXTRACT, cmp_err=False,
-    post='        if max_count(0) > 1 { return Err("C06: the body of a @memoize rule was evaluated more than once at one position"); }',
+    post='        if max_count(0) > 1 { return Err("C06: the body of a @memoize rule was evaluated more than once at one position"); }' + '\n' + ERR_REAL,
     note='memoized M without checks, also when M fails'))
 
 S.append(Schema('memo_string', [Rule('R', Alt(Seq(F('s', 0, Ref('M')), fc()), Seq(F('s', 0, Ref('M')), fd())), skip=False, export=True),
                                 Rule('M', Seq(A, Opt(B)), skip=False, memo=True, string=(0, 1))], 'R', 'ABCD', n=3,
     props=('C05', 'C06', 'C09'), cmp_err=False,
     extract=J(opt(2, 'v.c'), opt(3, 'v.d'), '                o.x[0] = 0; o.x[1] = v.s.len() as i32;', '                if v.s.as_bytes() != &t.sym[0..v.s.len()] { o.x[2] = -1; }'),
-    post='        if max_count(0) > 1 { return Err("C06: the body of a @memoize rule was evaluated more than once at one position"); }',
+    post='        if max_count(0) > 1 { return Err("C06: the body of a @memoize rule was evaluated more than once at one position"); }' + '\n' + ERR_REAL,
     note='@memoize @string'))
 
 LR_EXTRACT = J('                fn walk(l: &L, o: &mut Obs) { if let Some(p) = &l.l { walk(p, o); } if let Some(t) = &l.a { o.f[0].push(*t); } if let Some(t) = &l.b { o.f[1].push(*t); } }',
@@ -293,7 +298,7 @@ S.append(Schema('memo_position', [Rule('R', Alt(Seq(F('m', 0, Ref('M')), fc()), 
                                   Rule('M', Seq(fa(), Opt(B)), memo=True, position=(0, 1))], 'R', 'ABCD', n=2, alphabet='x ',
     props=('C05', 'C06', 'C09'), cmp_err=False,
     extract=J(one(0, 'v.m.a'), opt(2, 'v.c'), opt(3, 'v.d'), '                o.x[0] = v.m.position.start as i32; o.x[1] = v.m.position.end as i32;'),
-    post='        if max_count(0) > 1 { return Err("C06: the body of a @memoize rule was evaluated more than once at one position"); }',
+    post='        if max_count(0) > 1 { return Err("C06: the body of a @memoize rule was evaluated more than once at one position"); }' + '\n' + ERR_REAL,
     note='@memoize @position in a skipping rule: a cache hit replays the same range'))
 
 # ---------------------------------------------------------------------------------------------- third batch
@@ -497,6 +502,86 @@ S.append(Schema('layout_variants', [], 'R', '', expect='same_as:layout_tight', p
     note='layout, comments and quote style do not change the grammar that is read'))
 S.append(Schema('layout_tight', [], 'R', '', expect='compile', props=('C12',), kani=False,
     raw_ebnf=("@export @no_skip_ws R='a'..'z'|('q' x:X);@char @check(crate::ops::chk_char0) @check(crate::ops::chk_char0) X='0'..'9'|'_';"), note='tight layout twin (both @check directives after @char)'))
+
+# ---------------------------------------------------------------------------------------------- fifth batch (after seeding round 4)
+# C14: a @char class with a SINGLE literal / range arm and a @check (a specialised single-arm path must still call the check)
+S.append(Schema('char_rule_single', [Rule('R', Seq(F('k', 0, Ref('Rg')), Opt(F('j', 1, Ref('Lt'))), Eoi()), skip=False, export=True),
+                                     CharRule('Rg', [Rng('b', 'd')], check=(0, 'crate::ops::chk_char0')),
+                                     CharRule('Lt', [Lit('x')], check=(0, 'crate::ops::chk_char0'))], 'R', '', n=3, alphabet='xbcda', nchk=1,
+    props=('C14', 'C01'),
+    extract=J(ty('v.k', 'char'), '                o.f[0].push(1000 + v.k as u16);', '                if let Some(j) = v.j { o.f[1].push(1000 + j as u16); }'),
+    note='@check on @char rules with exactly one range / one literal arm: the check still decides'))
+
+# C13: the same rule included twice below an outer include (a diamond): acyclic, must be accepted and behave like the inlined text
+S.append(Schema('include_diamond', [Rule('R', Seq(Inc('P'), Eoi()), skip=False, export=True),
+                                    Rule('P', Seq(Inc('I'), fc(), Inc('I')), skip=False), Rule('I', Seq(fa()), skip=False)], 'R', 'AC', n=3,
+    props=('C13',), extract=J(ty('v.a', 'Vec<A>'), vec(0, 'v.a'), one(2, 'v.c')),
+    note='>P $ with P = >I c:C >I and I = a:A: a rule reached twice below an outer include is not a cycle'))
+
+# C13 / C03: a boxed field keeps its Box through an include
+S.append(Schema('include_boxed', [Rule('R', Seq(fa(), Opt(Inc('I')), Eoi()), skip=False, export=True),
+                                  Rule('I', Seq(fb(boxed=True), Star(fc(boxed=True))), skip=False)], 'R', 'ABC', n=3, nonzero='C',
+    props=('C13', 'C03'), extract=J(ty('v.b', 'Option<Box<B>>'), ty('v.c', 'Vec<Box<C>>'), one(0, 'v.a'), optbox(1, 'v.b'), '                for t in v.c.iter() { o.f[2].push(**t); }'),
+    note='a:A [>I] $ with I = b:*B {c:*C}: boxed fields of the included body are boxed in the including rule'))
+
+# C05 / C13: a @memoize @check rule that failed at a position is afterwards INCLUDED at the same position: the include runs the bare
+# body (no check, no cache)
+S.append(Schema('memo_include', [Rule('R', Alt(Seq(F('m', 0, Ref('M')), fc()), Seq(Inc('M'), fd())), skip=False, export=True),
+                                 Rule('M', Seq(fa()), skip=False, memo=True, checks=[(0, 'chk_m', 'first')])], 'R', 'ACD', n=2, nchk=1,
+    props=('C05', 'C13', 'C14'), support='    pub fn chk_m(v: &M) -> bool { check(0, v.a) }\n', cmp_err=False,
+    extract=J('                if let Some(m) = &v.m { o.f[0].push(m.a); }', opt(0, 'v.a'), opt(2, 'v.c'), opt(3, 'v.d')),
+    note='m:M c:C | >M d:D with @memoize @check M = a:A: a cached failure of the rule says nothing about its included body'))
+
+# C07: the recursive reference of a @leftrec rule is UNNAMED (the growth loop must not depend on the rule having a recursive field)
+S.append(Schema('leftrec_unnamed', [Rule('R', Seq(F('l', 0, Ref('L')), Opt(fc())), skip=False, export=True),
+                                    Rule('L', Alt(Seq(Ref('L'), fb()), fa()), skip=False, leftrec=True)], 'R', 'ABC', n=3, nonzero='B',
+    props=('C07',), cmp_err=False, cmp_fields=False,
+    extract=J(opt(2, 'v.c')),
+    note='@leftrec L = L b:B | a:A with an unnamed recursive reference: accepts a b* greedily and terminates'))
+
+# C07: everything after the recursive reference can match empty: a re-evaluation that does not get further must not replace the result
+S.append(Schema('leftrec_optional_tail', [Rule('R', Seq(F('l', 0, Ref('L')), Opt(fc())), skip=False, export=True),
+                                          Rule('L', Alt(Seq(F('l', 0, Ref('L'), boxed=True), Opt(fb())), fa()), skip=False, leftrec=True)], 'R', 'ABC', n=3, nonzero='B',
+    props=('C07', 'C02'), cmp_err=False,
+    extract=J('                fn walk(l: &L, o: &mut Obs, nodes: &mut i32) { *nodes += 1; if let Some(p) = &l.l { walk(p, o, nodes); } if let Some(t) = &l.a { o.f[0].push(*t); } if let Some(t) = &l.b { o.f[1].push(*t); } }',
+              '                let mut nodes = 0i32; walk(&v.l, &mut o, &mut nodes);', opt(2, 'v.c'),
+              '                unsafe { G.aux[0] = nodes - 1 - o.f[1].n as i32; }'),
+    post='        if real.ok && unsafe { G.aux[0] } != 0 { return Err("C07: the tree of a @leftrec rule has a node that no growth step produced (or lacks one)"); }',
+    note='@leftrec L = l:*L [b:B] | a:A: growth continues only while the match gets strictly further; one node per growth step'))
+
+# C09 / C08: a negative lookahead at the END of a skipping @position rule consumes nothing, also no blanks
+S.append(Schema('ws_lookahead_tail', [Rule('R', Seq(F('p', 0, Ref('P')), Opt(fc())), export=True),
+                                      Rule('P', Seq(fa(), Not(B)), position=(0, 1))], 'R', 'ABC', n=3, alphabet='x ',
+    props=('C09', 'C08'),
+    extract=J(one(0, 'v.p.a'), opt(2, 'v.c'), '                o.x[0] = v.p.position.start as i32; o.x[1] = v.p.position.end as i32;'),
+    note='p:P [c:C] with @position P = a:A !B in skipping rules: the range ends where a:A ended, not after the blanks the lookahead looked past'))
+
+# C09 / C05: a skipping @memoize @position rule entered at the same token once BEFORE the blanks (from a @no_skip_ws rule) and once
+# AFTER them (from a skipping rule): two different cache keys, two different ranges
+S.append(Schema('memo_position_two_entries', [Rule('R', Alt(Seq(fc(), F('m', 0, Ref('M')), fd()), Seq(fc(), F('t', 1, Ref('T')))), skip=False, export=True),
+                                              Rule('T', Seq(F('m', 0, Ref('M'))), skip=True),
+                                              Rule('M', Seq(fa()), skip=True, memo=True, position=(0, 1))], 'R', 'ACD', n=3, alphabet='x ',
+    props=('C05', 'C09'), cmp_err=False,
+    extract=J(one(2, 'v.c'), opt(3, 'v.d'),
+              '                if let Some(m) = &v.m { o.f[0].push(m.a); o.x[0] = m.position.start as i32; o.x[1] = m.position.end as i32; }',
+              '                if let Some(t) = &v.t { o.f[0].push(t.m.a); o.x[0] = t.m.position.start as i32; o.x[1] = t.m.position.end as i32; }'),
+    note='c:C m:M d:D | c:C t:T with T = m:M (skipping) and a skipping @memoize @position M = a:A: the range of a cache hit is the range of THAT entry'))
+
+# C02 / C08: the whitespace an abandoned alternative skipped is not consumed when an empty alternative wins: the next char field sees it
+S.append(Schema('ws_choice_then_char', [Rule('R', Seq(F('s', 0, Ref('Sg')), F('k', 1, AnyChar())), skip=False, export=True),
+                                        Rule('Sg', Seq(fa(), Grp(Alt(Lit('y'), Seq()))), skip=True)], 'R', 'A', n=4, alphabet='x y',
+    props=('C02', 'C08'),
+    extract=J(one(0, 'v.s.a'), '                o.f[1].push(1000 + v.k as u16);'),
+    note="s:Sg k:char with a skipping Sg = a:A ('y' | ) called from a @no_skip_ws rule: when the empty alternative wins, k is the blank"))
+
+# C10 (memoized grammars: "an offset at which some attempt really failed during that parse"): a @memoize rule fails inside a
+# succeeding negative lookahead and is needed again at the same offset: the cache hit must report where the rule really failed
+S.append(Schema('memo_lookahead_reuse', [Rule('R', Seq(Not(Seq(Ref('M'), D)), F('m', 0, Ref('M')), fc()), skip=False, export=True),
+                                         Rule('M', Seq(fa(), fb()), skip=False, memo=True)], 'R', 'ABCD', n=2,
+    props=('C10', 'C05'), cmp_err=False,
+    extract=J(one(0, 'v.m.a'), one(1, 'v.m.b'), one(2, 'v.c')),
+    post=ERR_REAL,
+    note='!(M D) m:M c:C with @memoize M = a:A b:B: a cached failure is reported at the offset where it happened'))
 
 # ---------------------------------------------------------------------------------------------- differential twins
 # C13 / C05 / C19 are statements of the form "with the feature the parser behaves exactly as without it". They are decided by
